@@ -196,6 +196,94 @@ func c20(c *core.Check) {
 		r1.Cond(ok, fmt.Sprintf("badPairs has (%s, %s)", fp.a, fp.b), initPos, "separator inserted ("+fp.reason+")",
 			fmt.Sprintf("no separator between %s and %s: written back to back they re-tokenize differently (%s)", fp.a, fp.b, fp.reason))
 	}
+	// literal tokens of more than one character: computed from the tokenizer's own vocabulary. Two literal tokens
+	// written back to back must read back as the same two tokens under the tokenizer's rule (`||` first, then
+	// `c=` for c in the set it tests, then one character).
+	if cd := p.Lookup("css/parser.(*tokenizer).consumeDelimOrLitteral"); cd == nil {
+		r1.Anchor("css/parser.(*tokenizer).consumeDelimOrLitteral")
+	} else {
+		var prefixes []string // multi-character literals tested with bytes.HasPrefix, in order
+		var eqChars []string  // characters c for which `c=` is one token
+		core.Instrs(cd, func(in ssa.Instruction) {
+			switch x := in.(type) {
+			case *ssa.Call:
+				if cal := x.Call.StaticCallee(); cal != nil && cal.Name() == "HasPrefix" && len(x.Call.Args) == 2 {
+					if cv, ok := x.Call.Args[1].(*ssa.Convert); ok {
+						if s, ok := core.ConstStr(cv.X); ok && len(s) > 1 {
+							prefixes = append(prefixes, s)
+						}
+					}
+				}
+			case *ssa.BinOp:
+				if x.Op == token.EQL {
+					if k, ok := core.ConstInt(x.Y); ok && k > 32 && k < 127 {
+						if _, isLookup := x.X.(*ssa.UnOp); isLookup {
+							eqChars = append(eqChars, string(rune(k)))
+						} else if _, isIdx := x.X.(*ssa.Lookup); isIdx {
+							eqChars = append(eqChars, string(rune(k)))
+						} else {
+							eqChars = append(eqChars, string(rune(k)))
+						}
+					}
+				}
+			}
+		})
+		sort.Strings(eqChars)
+		if len(prefixes) == 0 || len(eqChars) < 3 {
+			r1.Unknown("literal vocabulary of consumeDelimOrLitteral", p.Pos(cd.Pos()), fmt.Sprintf("prefixes %v, c= characters %v", prefixes, eqChars))
+		} else {
+			isEq := map[string]bool{}
+			for _, ch := range eqChars {
+				isEq[ch] = true
+			}
+			next := func(src string) string { // the first literal token of src under the tokenizer's rule
+				for _, pf := range prefixes {
+					if strings.HasPrefix(src, pf) {
+						return pf
+					}
+				}
+				if isEq[src[:1]] {
+					if len(src) > 1 && src[1] == '=' {
+						return src[:2]
+					}
+					return src[:1]
+				}
+				return src[:1]
+			}
+			vocab := []string{"="}
+			for _, pf := range prefixes {
+				if !strings.ContainsAny(pf, "<!-") { // `<!--` and `-->` cannot be produced by two literal tokens of this set
+					vocab = append(vocab, pf)
+				}
+			}
+			for _, ch := range eqChars {
+				vocab = append(vocab, ch, ch+"=")
+			}
+			nPairs := 0
+			for _, a := range vocab {
+				for _, b := range vocab {
+					src := a + b
+					t1 := next(src)
+					fuses := t1 != a
+					if !fuses {
+						if t2 := next(src[len(t1):]); t2 != b {
+							fuses = true
+						}
+					}
+					if !fuses {
+						continue
+					}
+					nPairs++
+					_, ok := bp[[2]string{a, b}]
+					r1.Cond(ok, fmt.Sprintf("badPairs has (%s, %s)", a, b), initPos, "separator inserted (written back to back they read as "+t1+" …)",
+						fmt.Sprintf("no separator between the literal tokens %s and %s: written back to back (%s) the tokenizer reads %s first", a, b, src, t1))
+				}
+			}
+			if nPairs < 6 {
+				r1.Unknown("literal fusing pairs", p.Pos(cd.Pos()), fmt.Sprintf("%d fusing pairs computed from vocabulary %v", nPairs, vocab))
+			}
+		}
+	}
 	// the table is consulted with (previous kind, this kind) in that order and a comment is written
 	st := p.Fn("css/parser", "serializeTo")
 	if st == nil {
@@ -391,6 +479,63 @@ func c20(c *core.Check) {
 			okDash := core.PassFrom(dashBlk.Succs[0], isDecode, isRet)
 			r4.Cond(okDash, "serializeIdentifier | character after a leading dash", p.Pos(dashBlk.Instrs[0].Pos()), "the character after the dash goes through the first-character escaping", "after a leading '-' the function returns without escaping the next character as an identifier start: `-0red` is written as is and reads back as a dimension")
 		}
+	}
+	// a dimension's unit that looks like an exponent (e or E, then a digit or a dash) is escaped, with the letter's own code
+	if ds := p.Lookup("css/parser.Dimension.serializeTo"); ds == nil {
+		r4.Anchor("css/parser.Dimension.serializeTo")
+	} else {
+		consts := map[int64]bool{}
+		fromUnit := false
+		core.Instrs(ds, func(in ssa.Instruction) {
+			switch x := in.(type) {
+			case *ssa.BinOp:
+				if k, ok := core.ConstInt(x.Y); ok {
+					consts[k] = true
+				}
+				if k, ok := core.ConstInt(x.X); ok {
+					consts[k] = true
+				}
+			case *ssa.Call:
+				if cal := x.Call.StaticCallee(); cal != nil && cal.Name() == "Sprintf" && len(x.Call.Args) == 2 {
+					if f, ok := core.ConstStr(x.Call.Args[0]); ok && strings.Contains(f, "%X") && strings.HasSuffix(f, " ") {
+						// the formatted value is a character of the unit, not a constant
+						if sl, ok := x.Call.Args[1].(*ssa.Slice); ok {
+							if al, ok := sl.X.(*ssa.Alloc); ok && al.Referrers() != nil {
+								for _, rr := range *al.Referrers() {
+									ia, ok := rr.(*ssa.IndexAddr)
+									if !ok || ia.Referrers() == nil {
+										continue
+									}
+									for _, r2 := range *ia.Referrers() {
+										if st, ok := r2.(*ssa.Store); ok {
+											v := st.Val
+											for {
+												switch y := v.(type) {
+												case *ssa.MakeInterface:
+													v = y.X
+													continue
+												case *ssa.Convert:
+													v = y.X
+													continue
+												}
+												break
+											}
+											switch v.(type) {
+											case *ssa.Lookup, *ssa.Index: // a character of the unit string
+												fromUnit = true
+											}
+										}
+									}
+								}
+							}
+						}
+					}
+				}
+			}
+		})
+		digits := consts['0'] && consts['9']
+		r4.Cond(consts['e'] && consts['E'] && consts['-'] && digits, "Dimension.serializeTo | exponent-like units", p.Pos(ds.Pos()), "units starting with e/E followed by a dash or a digit are escaped", fmt.Sprintf("the test for exponent-like units does not cover e, E, '-' and the digits (constants compared: e %v E %v - %v 0..9 %v): `1e3` with unit e3 is written as a number", consts['e'], consts['E'], consts['-'], digits))
+		r4.Cond(fromUnit, "Dimension.serializeTo | escape keeps the letter", p.Pos(ds.Pos()), "the escape is formatted from the unit's first character", "the escape of the first letter is a constant: the unit E is written as e (or the reverse)")
 	}
 	type esc struct {
 		fn   string
